@@ -936,6 +936,23 @@ func (ex *Exec) convert(v Value, from, to types.Type) Value {
 		return &OpaqueV{kind: "float", data: v}
 	case fok && tok && fb.Info()&types.IsFloat != 0 && tb.Info()&types.IsFloat != 0:
 		return v
+	case fok && tok && fb.Info()&types.IsFloat != 0 && tb.Info()&types.IsInteger != 0:
+		// float -> integer: an uninterpreted function of the float's bits (floats are opaque 64-bit patterns)
+		w, _ := intWidth(tb)
+		var bits *Term
+		switch f := v.(type) {
+		case *OpaqueV:
+			if t, ok := f.data.(*Term); ok {
+				bits = t
+			}
+		case *Term:
+			bits = f
+		}
+		if bits == nil {
+			panic(ex.unsupported("convert float (%T) -> integer", v))
+		}
+		ex.H.noteStub("float -> integer conversion (uninterpreted: floats are opaque bit patterns)")
+		return tt.Resize(tt.UF("f2i", SBV64, tt.Resize(bits, 64, false)), w, true)
 	case fok && tok && fb.Kind() == types.UnsafePointer || tok && tb.Kind() == types.UnsafePointer:
 		return v
 	case fok && tok && fb.Info()&types.IsInteger != 0 && tb.Info()&types.IsString != 0:
